@@ -447,7 +447,7 @@ prop('C04',
             needs_min={'single_isr_placements': 150, 'nested_pair_placements': 1000, 'placements_nontrivial': 100}),
       Stage('co', ['harness/mq_conc.c'] + SHIM, MQ, preset='shim', nproc=16,
             args={'quick': ['--extra', 'co'], 'thorough': ['--extra', 'co']},
-            needs_min={'schedules_nontrivial': 5000, 'schedules_with_claim_in_flight_while_full': 1000,
+            needs_min={'runs_with_buffers_beyond_64KiB': 100, 'schedules_nontrivial': 5000, 'schedules_with_claim_in_flight_while_full': 1000,
                        'messages_delivered': 100000}),
       Stage('co-clang', ['harness/mq_conc.c'] + SHIM, MQ, preset='shim', cc='clang', nproc=16, tiers=('thorough',),
             args={'thorough': ['--extra', 'co', '--cases', '500000']})],
